@@ -5,6 +5,7 @@ Every declaration is a plain dict (see `decl()`), rendered to Rust source by
 fixed by README/GLOSSARY (see DESIGN.md section 3) and recorded next to the
 spelling (`value` of a bound = what the spelling denotes).
 """
+import copy
 import itertools
 import struct
 import random
@@ -151,7 +152,8 @@ def decl(family, inner, sanitizers=(), validators=(), derives=(), default=None, 
     _counter[0] += 1
     return {
         'name': None, 'family': family, 'inner': inner, 'generics': generics,
-        'sanitizers': list(sanitizers), 'validators': list(validators), 'custom': custom,
+        'sanitizers': copy.deepcopy(list(sanitizers)), 'validators': copy.deepcopy(list(validators)),
+        'custom': copy.deepcopy(custom),
         'derives': list(derives), 'default': default, 'const_fn': const_fn,
         'new_unchecked': new_unchecked, 'vis': vis, 'layout': layout, 'tags': list(tags),
         'extra_blocks': extra_blocks, 'expect': expect, 'note': note,
@@ -180,35 +182,54 @@ def S(kind, text=None, form=None, **kw):
     return d
 
 
-def render_attr(d):
+def render_attr(d, line0=0):
+    """Renders the attribute; records in every closure-valued item its (line, col) (1-based,
+    relative to line0 = line of `#[nutype(`) so that MIR closure spans can be matched to it."""
     blocks = {}
+    trailing = ',' if d.get('layout') and d['layout'].get('trailing') else ''
+
+    def build(head, items):
+        # items: list of (text, record or None); returns (string, [(record, col)])
+        s = head + '('
+        marks = []
+        for i, (text, rec, off) in enumerate(items):
+            if i:
+                s += ', '
+            if rec is not None:
+                marks.append((rec, len(s) + off))
+            s += text
+        return s + trailing + ')', marks
+
     if d['sanitizers']:
         items = []
-        for s in d['sanitizers']:
-            items.append(s['kind'] if s['kind'] != 'with' else f"with = {s['text']}")
-        blocks['sanitize'] = 'sanitize(' + ', '.join(items) + (',' if d.get('layout') and d['layout'].get('trailing') else '') + ')'
+        for sn in d['sanitizers']:
+            if sn['kind'] != 'with':
+                items.append((sn['kind'], None, 0))
+            else:
+                items.append((f"with = {sn['text']}", sn, len('with = ')))
+        blocks['sanitize'] = build('sanitize', items)
     if d['validators'] or d['custom']:
         items = []
         for v in d['validators']:
             if v['kind'] in ('not_empty', 'finite'):
-                items.append(v['kind'])
+                items.append((v['kind'], None, 0))
             else:
-                items.append(f"{v['kind']} = {v['text']}")
+                items.append((f"{v['kind']} = {v['text']}", v, len(v['kind']) + 3))
         if d['custom']:
             c = d['custom']
-            pair = [f"with = {c['with_text']}", f"error = {c['error']}"]
+            pair = [(f"with = {c['with_text']}", c, len('with = ')), (f"error = {c['error']}", None, 0)]
             if c.get('error_first'):
                 pair.reverse()
             items += pair
-        blocks['validate'] = 'validate(' + ', '.join(items) + (',' if d.get('layout') and d['layout'].get('trailing') else '') + ')'
+        blocks['validate'] = build('validate', items)
     if d['derives']:
-        blocks['derive'] = 'derive(' + ', '.join(d['derives']) + (',' if d.get('layout') and d['layout'].get('trailing') else '') + ')'
+        blocks['derive'] = build('derive', [(x, None, 0) for x in d['derives']])
     if d['default'] is not None:
-        blocks['default'] = f"default = {d['default']['text']}"
+        blocks['default'] = (f"default = {d['default']['text']}", [])
     if d['const_fn']:
-        blocks['const_fn'] = 'const_fn'
+        blocks['const_fn'] = ('const_fn', [])
     if d['new_unchecked']:
-        blocks['new_unchecked'] = 'new_unchecked'
+        blocks['new_unchecked'] = ('new_unchecked', [])
     order = ['sanitize', 'validate', 'derive', 'default', 'const_fn', 'new_unchecked']
     if d.get('layout') and d['layout'].get('order'):
         order = d['layout']['order']
@@ -216,15 +237,22 @@ def render_attr(d):
     if d.get('extra_blocks'):
         # raw extra blocks (repeated validate(..) etc.), positioned by index
         for pos, text in d['extra_blocks']:
-            parts.insert(pos if pos >= 0 else len(parts), text)
+            parts.insert(pos if pos >= 0 else len(parts), (text, []))
     trail = ',' if d.get('layout') and d['layout'].get('trailing_outer') else ''
-    return '#[nutype(\n    ' + ',\n    '.join(parts) + trail + '\n)]'
+    lines = ['#[nutype(']
+    for i, (text, marks) in enumerate(parts):
+        ln = line0 + len(lines)
+        for rec, col in marks:
+            rec['pos'] = (ln, 4 + col + 1)
+        lines.append('    ' + text + (',' if i < len(parts) - 1 else trail))
+    lines.append(')]')
+    return '\n'.join(lines)
 
 
-def render(d):
+def render(d, line0=0):
     vis = d['vis'] + ' ' if d['vis'] else ''
     g = d['generics'] or ''
-    return f"{render_attr(d)}\n{vis}struct {d['name']}{g}({d['inner']});\n"
+    return f"{render_attr(d, line0)}\n{vis}struct {d['name']}{g}({d['inner']});\n"
 
 
 PRELUDE_STD = '''#![allow(dead_code, unused_imports, unused_variables, unused_mut, clippy::all)]
@@ -750,7 +778,15 @@ def build(tier='quick', seed=0):
 
 
 def crate_source(c):
-    return c['prelude'] + '\n' + '\n'.join(render(d) for d in c['decls'])
+    """Source text of a corpus crate; fills d['line'] (line of `#[nutype(`) and closure positions."""
+    out = c['prelude'] + '\n'
+    for d in c['decls']:
+        line0 = out.count('\n') + 1
+        d['line'] = line0
+        txt = render(d, line0)
+        d['end_line'] = line0 + txt.count('\n') - 1
+        out += txt + '\n'
+    return out
 
 
 if __name__ == '__main__':
